@@ -557,7 +557,13 @@ class KernelSampleRng(Contract):
         has_route = "rng" in pos + kwonly
         if shape["call"] and has_route:
             kw["rng"] = call_rng
-        return Pre(s, [IV(z3.Int("n_samples"))], kw, ghost={"s": s, "shape": shape, "ctor_rng": ctor_rng, "call_rng": call_rng, "default": default_rng, "has_route": has_route})
+        user_kwargs = None
+        if "sampler_kwargs" in pos + kwonly:
+            # the caller's own dictionary of kernel settings (the step count of the final mutation among them)
+            user_kwargs = PyDict({"n_final_steps": IV(z3.Int("user_n_final_steps"))})
+            kw["sampler_kwargs"] = user_kwargs
+        return Pre(s, [IV(z3.Int("n_samples"))], kw, ghost={"s": s, "shape": shape, "ctor_rng": ctor_rng, "call_rng": call_rng, "default": default_rng, "has_route": has_route,
+                                                           "user_kwargs": user_kwargs, "user_kwargs0": dict(user_kwargs.d) if user_kwargs is not None else None})
 
     def post(self, I, pre, r):
         p, g = I.path, pre.ghost
@@ -576,6 +582,12 @@ class KernelSampleRng(Contract):
             p.prove(z3.BoolVal(isinstance(used, Sym) and used.info.get("ambient", False)), f"{q}:C20:an ambient generator is used only when the user supplied none")
         if sh["call"] and not g["has_route"]:
             p.prove(z3.BoolVal(True), f"{q}:C20:{self.cls}.sample has no rng parameter (recorded in the routing table)")
+        uk = g.get("user_kwargs")
+        if uk is not None:
+            # "the same sampling arguments": the dictionary the caller passed can be passed again (second run, resumed call) and still says the same
+            same = set(uk.d) == set(g["user_kwargs0"]) and all(uk.d[k] is g["user_kwargs0"][k] for k in g["user_kwargs0"])
+            p.prove(z3.BoolVal(same), f"{q}:C20:C11:the caller's sampler_kwargs dictionary is left as it was passed (defaults are filled into the sampler's own copy)")
+            p.prove(z3.BoolVal(g["s"].f.get("sampler_kwargs") is not uk), f"{q}:C20:C11:the sampler works on its own copy of sampler_kwargs (SMCSampler.sample removes n_final_steps from it: the caller's dictionary must keep the entry for the next call)")
 
 
 class EmceeSMCSampleRng(KernelSampleRng):
@@ -1128,3 +1140,88 @@ class InitSampler(InitSamplerModel):
             fk = tk.get("flow_kwargs")
             same = fk is a.f["flow_kwargs"] or (isinstance(fk, PyDict) and set(fk.d) == set(a.f["flow_kwargs"].d) and all(fk.d[k] is a.f["flow_kwargs"].d[k] for k in fk.d))
             p.prove(z3.BoolVal(same), f"{q}:C20:the preconditioning flow is built with the instance's flow options (its seed included) {tag}")
+
+
+# ------------------------------------------------------------------------------------------ small glue functions that callers only know through models
+class SaveFlow(SaveFlowModel):
+    qual = "aspire:Aspire.save_flow"
+    properties = ("C12", "C14", "C13")
+    raises = {"ValueError": "no flow to save"}
+    doc = "the instance's *current* flow is saved into the given file under the given path (default `flow`); without a flow nothing is written and ValueError is raised"
+
+    def shapes(self):
+        return [{"flow": f, "path": pth} for f in (0, 1) for pth in (None, "proposal")]
+
+    def setup(self, I, shape):
+        fl = flow_obj("instance") if shape["flow"] else NONE
+
+        def flow_save(I2, a, k, n):
+            I2.path.event("flow.save", a[0], a[1], k.get("path", a[2] if len(a) > 2 else Str("flow")))
+            return NONE
+        I.reg.handlers["FlowStub2.save"] = flow_save
+        a = Obj("Aspire", {"_flow": fl})
+        h5 = Obj("H5File", {"root": mk_group("/"), "mode": Str("a"), "closed": B(False), "path": Str("run.h5")})
+        kw = {"path": Str(shape["path"])} if shape["path"] else {}
+        return Pre(a, [h5], kw, ghost={"a": a, "fl": fl, "h5": h5, "shape": shape})
+
+    def post(self, I, pre, r):
+        p, g = I.path, pre.ghost
+        q = self.qual
+        sh = g["shape"]
+        saves = [e for e in p.events if e[0] == "flow.save"]
+        if not sh["flow"]:
+            p.prove(z3.BoolVal(False), f"{q}:C12:without a flow save_flow raises (nothing half-written)")
+            return
+        ok = len(saves) == 1 and saves[0][1] is g["fl"] and saves[0][2] is g["h5"] and isinstance(saves[0][3], Str) and saves[0][3].v == (sh["path"] or "flow")
+        p.prove(z3.BoolVal(ok), f"{q}:C12:C14:C13:the instance's current flow is saved once, into the given file, under `{sh['path'] or 'flow'}`")
+
+    def post_raise(self, I, pre, sig):
+        sh = pre.ghost["shape"]
+        if sig.exc == "ValueError" and not sh["flow"]:
+            I.path.prove(z3.BoolVal(not any(e[0] == "flow.save" for e in I.path.events)), f"{self.qual}:C12:nothing is written when there is no flow")
+            return
+        return super().post_raise(I, pre, sig)
+
+
+from contracts.smc_base import FitPreconditioningModel  # noqa: E402
+
+
+class FitPreconditioning(FitPreconditioningModel):
+    qual = "samplers.base:Sampler.fit_preconditioning_transform"
+    properties = ("C11", "C05")
+    doc = ("every call refits the sampler's preconditioning transform to the points it is given (converted to the transform's namespace and dtype) and returns "
+           "the transformed points: the transform in force during a mutation is a function of the current population only - which is what makes a resumed run "
+           "(new sampler object, refit on the restored population) continue like the uninterrupted one")
+
+    def shapes(self):
+        return [{"call": c} for c in (1, 2)]
+
+    def setup(self, I, shape):
+        from contracts.samplers import mk_sampler_obj
+        s = mk_sampler_obj(I, "Sampler")
+        n = z3.Int("n_points")
+        I.path.assume(n >= 1)
+        x = base_arr("points", "row", n)
+        g = {"s": s, "x": x, "shape": shape}
+        if shape["call"] == 2:
+            # an earlier call on other points (the previous iteration): must not change what this call does
+            info = I.front.get(self.qual)
+            I.depth += 1
+            try:
+                I.call_repo(info, s, [base_arr("earlier_points", "row", z3.Int("n_earlier"))], {}, None, force_inline=True)
+            finally:
+                I.depth -= 1
+            g["n_before"] = len([e for e in I.path.events if e[0] == "precond.fit"])
+        return Pre(s, [x], ghost=g)
+
+    def post(self, I, pre, r):
+        from contracts.samples import arr_eq_goal
+        from contracts.samplers import TFWD_X, rowwise
+        p, g = I.path, pre.ghost
+        q = self.qual
+        tag = "[first call]" if g["shape"]["call"] == 1 else "[a later call on the same sampler]"
+        fits = [e for e in p.events if e[0] == "precond.fit"][g.get("n_before", 0):]
+        p.prove(z3.BoolVal(len(fits) == 1), f"{q}:C11:C05:the transform is refitted on every call {tag}")
+        if fits:
+            p.prove(arr_eq_goal(fits[0][1], g["x"]), f"{q}:C11:C05:the transform is fitted to the points given to this call {tag}")
+        p.prove(arr_eq_goal(r, rowwise("TFWDX", TFWD_X, g["x"], "row")) if isinstance(r, Arr) else z3.BoolVal(False), f"{q}:C05:returns the given points in the fitted transform's space {tag}")
